@@ -49,10 +49,11 @@ def make_session(rnd, pad):
         read = "".join(read)
         L = len(read)
         name = f"q{q}"
+        gafname = name + (" ch=7 comment" if q % 4 == 2 else "")      # GraphAligner keeps the FASTQ comment: a blank inside column 1
         opt = [f"tp:A:{rnd.choice('PPS')}", f"cg:Z:{L}=", "NM:i:1"] + ([f"zz:Z:{'p' * pad}"] if pad else [])
         if not pad and q % 5 == 4:      # a free-text last field ending in white space that is not ASCII (no-break / ideographic space)
             opt.append("co:Z:sample 7" + ["\u00a0", "\u3000", " \u00a0", " ", "  "][q % 5])      # ... or in plain blanks
-        recs.append("\t".join([name, str(L), "0", str(L), "+", "".join(o + n for o, n in steps), str(len(spelled)), str(ps), str(pe), str(L), str(L), str(rnd.choice([0, 30, 60]))] + opt))
+        recs.append("\t".join([gafname, str(L), "0", str(L), "+", "".join(o + n for o, n in steps), str(len(spelled)), str(ps), str(pe), str(L), str(L), str(rnd.choice([0, 30, 60]))] + opt))
         reads.append((name, read))
     return nodes, links, recs, reads
 
@@ -64,7 +65,13 @@ def gfa_text(nodes, links, tagged):
         out.append("\t".join(["S", n, g["seq"]] + tags))
     out = out[: len(out) // 2] + [""] + out[len(out) // 2 :] + ["", "# links"]      # blank and comment lines are legal
     out += [f"L\t{a}\t{ao}\t{b}\t{bo}\t0M" for a, ao, b, bo in links]
-    return "\n".join(out) + "\n"
+    text = "\n".join(out) + "\n"
+    if BOM[0]:      # a graph saved by an editor that writes a byte order mark: whatever that does, it does it to .gfa and .gfa.gz alike
+        text = "\ufeffS\tbomseg\tA\n" + text      # (the marked line is no S line for either reader: the graph proper is intact)
+    return text
+
+
+BOM = [False]
 
 
 def names_at(path, offs, bgzf):
@@ -77,7 +84,7 @@ def names_at(path, offs, bgzf):
             l = line_at(path, off, bgzf)
             a = rd.read_line(off)
             out.append(l.split("\t")[0])
-            ok = ok and a is not None and a.query_name == l.split("\t")[0]
+            ok = ok and a is not None and a.query_name == l.split("\t")[0].split(" ")[0]      # (the parser cuts the name at its first blank)
         except Exception:  # noqa
             out.append("UNRESOLVED")
             ok = False
@@ -246,7 +253,11 @@ def run_session(job):
 
         readers.SALT = sid      # the four configurations are run with the same form of every command line
         zsuf = [".gz", ".gz", ".bgz", ".GZ"][seed % 4]
-        per = [battery(d, f"c{k}", nodes, links, recs, reads, gs, fs, block, "" if seed % 3 == 1 else "\n", zsuf) for k, (gs, fs) in enumerate(cfgs)]
+        BOM[0] = seed % 5 == 2
+        try:
+            per = [battery(d, f"c{k}", nodes, links, recs, reads, gs, fs, block, "" if seed % 3 == 1 else "\n", zsuf) for k, (gs, fs) in enumerate(cfgs)]
+        finally:
+            BOM[0] = False
         # late queries: after every configuration has been indexed and used, ask the first two again WITHOUT re-indexing
         for k, (gs, fs) in enumerate(cfgs):
             gaf = os.path.join(d, "in.gaf" + (zsuf if gs == "bgzf" else ""))
